@@ -796,4 +796,127 @@ theorem series_threading {σ : Type} (f : Denom → Denom → Nat → Int → σ
       refine ⟨⟨by rw [hti], by rw [hto]; exact c⟩, ?_⟩
       simp only [List.map_cons, m, hti, hto]
 
+/-! ## T8 — exact-out series: the sender needs only the input denom (liveness; false for last-hop-first execution) -/
+
+section live
+variable {PS : Type} (M : PoolSpec PS) (sender : Addr)
+
+/-- all balances of the sender are non-negative (bank invariant) -/
+def NonnegBal (w : World PS) : Prop := ∀ d, 0 ≤ w.bank.bal sender d
+
+/-- a hop can be served on its own: what it is quoted (on `w0`) for a non-negative amount is non-negative, and a
+    sender with non-negative balances who holds the quoted input of the hop's input denom gets the quoted tree executed -/
+def HopLive (w0 : World PS) (r : Route) : Prop :=
+  (∀ a res rr u, inspect (calcPoolOut M w0) genOut true r a () = .ok (res, rr, u) → 0 ≤ a → 0 ≤ res) ∧
+  (∀ a res rr u (w : World PS), inspect (calcPoolOut M w0) genOut true r a () = .ok (res, rr, u) → 0 ≤ a →
+    NonnegBal sender w → res ≤ w.bank.bal sender r.din → ∃ w', execOut M sender rr w = .ok w')
+
+theorem seriesOut_quote_nonneg (w0 : World PS) : (rs : List Route) → ∀ (a res : Int) (rrs : List RResult) (u : Unit),
+    (∀ r ∈ rs, HopLive M sender w0 r) → inspectSeriesB (calcPoolOut M w0) genOut true rs a () = .ok (res, rrs, u) →
+    0 ≤ a → 0 ≤ res
+  | [] => by
+    intro a res rrs u _ h ha
+    simp only [inspectSeriesB, Res.ok.injEq, Prod.mk.injEq] at h
+    obtain ⟨e1, _, _⟩ := h; omega
+  | r :: rs => by
+    intro a res rrs u hl h ha
+    simp only [inspectSeriesB] at h
+    obtain ⟨⟨x, rrs', u1⟩, h1, h⟩ := bind_ok h
+    obtain ⟨⟨y, rr, u2⟩, h2, h⟩ := bind_ok h
+    simp only [Res.ok.injEq, Prod.mk.injEq] at h
+    obtain ⟨e1, _, _⟩ := h; subst e1
+    have hx := seriesOut_quote_nonneg w0 rs a x rrs' u1 (fun r' hr' => hl r' (by simp [hr'])) h1 ha
+    exact (hl r (by simp)).1 x y rr u2 h2 hx
+
+/-- Exact-out series of any length: if every hop can be served on its own, the whole series can, by a sender who holds
+    just the quoted input amount of the series' input denom (every other balance may be zero): the quoted results are
+    executed first hop first and each hop is paid from the output of the previous one. (With results in inspection
+    order — the unfixed code — the first executed hop is the LAST one and this fails: S2.) -/
+theorem seriesOut_needs_only_input (hs : ∀ id, sender ≠ poolAddr id) (w0 : World PS) : (rs : List Route) →
+    ∀ (cur dout : Denom) (a res : Int) (rrs : List RResult) (u : Unit) (w : World PS),
+    (∀ r ∈ rs, HopLive M sender w0 r) → validateSeries cur dout rs = true →
+    inspectSeriesB (calcPoolOut M w0) genOut true rs a () = .ok (res, rrs, u) → 0 ≤ a →
+    NonnegBal sender w → res ≤ w.bank.bal sender cur → ∃ w', execOutL M sender rrs w = .ok w'
+  | [] => by
+    intro cur dout a res rrs u w _ _ h _ _ _
+    simp only [inspectSeriesB, Res.ok.injEq, Prod.mk.injEq] at h
+    obtain ⟨_, e2, _⟩ := h; subst e2
+    exact ⟨w, by simp [execOutL]⟩
+  | r :: rs => by
+    intro cur dout a res rrs u w hl hv h ha hnn hb
+    simp only [inspectSeriesB] at h
+    obtain ⟨⟨x, rrs', u1⟩, h1, h⟩ := bind_ok h
+    obtain ⟨⟨y, rr, u2⟩, h2, h⟩ := bind_ok h
+    simp only [Res.ok.injEq, Prod.mk.injEq] at h
+    obtain ⟨e1, e2, _⟩ := h; subst e1 e2
+    simp only [validateSeries, Bool.and_eq_true, beq_iff_eq] at hv
+    obtain ⟨⟨hv1, hd⟩, hv2⟩ := hv
+    subst hd
+    have hlt : ∀ r' ∈ rs, HopLive M sender w0 r' := fun r' hr' => hl r' (by simp [hr'])
+    have hx0 : 0 ≤ x := seriesOut_quote_nonneg M sender w0 rs a x rrs' u1 hlt h1 ha
+    obtain ⟨w1, hx1⟩ := (hl r (by simp)).2 x y rr u2 w h2 hx0 hnn hb
+    have mv := inspectOut_moved M sender hs w0 r x y rr u2 w w1 hv1 h2 hx1
+    have hnn1 : NonnegBal sender w1 := by
+      intro d
+      have := mv d; have := hnn d
+      have hdx := δ_nonneg r.dout d x hx0
+      by_cases hdd : d = r.din
+      · subst hdd; rw [δ_self] at *; omega
+      · rw [δ_ne _ _ _ hdd] at *; omega
+    have hb1 : x ≤ w1.bank.bal sender r.dout := by
+      have e := mv r.dout
+      rw [δ_self] at e
+      have h0 := hnn r.dout
+      by_cases hdd : r.dout = r.din
+      · have e2 : δ r.din y r.dout = y := by rw [hdd]; exact δ_self _ _
+        have hb' : y ≤ w.bank.bal sender r.dout := by rw [hdd]; exact hb
+        omega
+      · have e2 := δ_ne r.din r.dout y hdd
+        omega
+    obtain ⟨w2, hx2⟩ := seriesOut_needs_only_input hs w0 rs r.dout dout a x rrs' u1 w1 hlt hv2 h1 ha hnn1 hb1
+    exact ⟨w2, by simp [execOutL, hx1, hx2, Res.bind]⟩
+
+/-- a single pool hop can be served if the pool serves: the quote is non-negative and the swap of a sender who can
+    pay the quoted input succeeds with exactly that input (pool deterministic and solvent; nothing asked of the sender
+    but the input denom) -/
+theorem pool_hopLive (w0 : World PS) (din dout : Denom) (id : Nat)
+    (hp : ∀ a ain, calcPoolOut M w0 din dout id a () = .ok (ain, ()) → 0 ≤ a →
+      0 ≤ ain ∧ ∀ w : World PS, NonnegBal sender w → ain ≤ w.bank.bal sender din → ∃ w', swapPoolOut M sender din dout id a w = .ok (ain, w')) :
+    HopLive M sender w0 (.pool din dout id) := by
+  constructor
+  · intro a res rr u h ha
+    simp only [inspect] at h
+    obtain ⟨⟨ain, u1⟩, h1, h⟩ := bind_ok h
+    simp only [genOut, Res.ok.injEq, Prod.mk.injEq] at h
+    obtain ⟨e1, _, _⟩ := h; subst e1
+    exact (hp a ain h1 ha).1
+  · intro a res rr u w h ha hnn hb
+    simp only [inspect] at h
+    obtain ⟨⟨ain, u1⟩, h1, h⟩ := bind_ok h
+    simp only [genOut, Res.ok.injEq, Prod.mk.injEq] at h
+    obtain ⟨e1, e2, _⟩ := h; subst e1 e2
+    obtain ⟨w', hw'⟩ := (hp a ain h1 ha).2 w hnn hb
+    exact ⟨w', by simp [execOut, hw', Res.bind]⟩
+
+end live
+
+/-! ## non-vacuity: concrete successful swaps over a two-hop series (sender holds only the input denom) -/
+
+/-- a 1:1 pool that refuses non-positive amounts -/
+def exPool : PoolSpec Unit where
+  calcIn _ _ _ a := .ok a
+  swapIn _ _ _ a := if a ≤ 0 then .err "unexpected-calc-amount" else .ok (a, ())
+  calcOut _ _ _ a := .ok a
+  swapOut _ _ _ a := if a ≤ 0 then .err "unexpected-calc-amount" else .ok (a, ())
+
+def exWorld : World Unit :=
+  ⟨((Bank.empty.credit "s" "a" 5).credit (poolAddr 0) "b" 9).credit (poolAddr 1) "c" 9, fun _ => some ()⟩
+
+def exRoute : Route := .series "a" "c" [.pool "a" "b" 0, .pool "b" "c" 1]
+
+example : (msgSwapIn exPool Dec.zero "s" none exRoute 5 1 exWorld).1.isOk = true := by decide
+/-- exact-out over a series by a sender who holds nothing but the input denom (fails with last-hop-first execution) -/
+example : (msgSwapOut exPool Dec.zero "s" none exRoute 5 5 exWorld).1.isOk = true := by decide
+example : (msgSwapOut exPool Dec.zero "s" none exRoute 4 5 exWorld).1.isOk = false := by decide
+
 end Sunrise.C03
